@@ -267,6 +267,10 @@ STMTS = ['x=({0})', 'x:({0})=({1})', 'x:({0})', 'x+=({0})', 'x,y=({0})', 'x=y=({
          'for x in ({0}):pass\nelse:pass', 'for x,*y in ({0}),({1}):pass', 'with ({0}) as y,({1}):pass', 'with ({0}):pass', 'if ({0}):pass\nelif ({1}):pass\nelse:pass', 'while ({0}):break\nelse:pass',
          '@({0})\ndef f(a,b:({0})=({1}),/,c=1,*d,e,f=({0}),**g)->({1}):\n return ({0})', '@({0})\nclass C(({1}),metaclass=({0})):\n x=1', 'def g():\n yield ({0})\n x=yield\n return (yield ({1}))',
          'async def h():\n await ({0})\n async with ({1}) as z:pass\n async for i in ({0}):pass\n return [i async for i in ({1})]', 'try:pass\nexcept ({0}) as e:pass\nexcept:pass\nelse:pass\nfinally:pass',
+         'def g():\n yield from (({0}),({1}))\n x=yield from (({0}),)\n x+=yield from (({0}),({1}))\n x:int=yield from (({0}),({1}))\n yield from ()\n yield from [({0})]',
+         'def g():\n yield (({0}),({1}))\n x=yield (({0}),)\n x+=yield (({0}),({1}))\n x:int=yield (({0}),({1}))\n yield ()\n yield *({0}),({1})\n x=y=yield (({0}),({1}))',
+         'async def ag():\n yield (({0}),({1}))\n x=yield (({0}),)\n await (({0}),({1}))\n x=await ({0})\n return (({0}),)',
+         'def r():\n return (({0}),({1}))\n return (({0}),)\n return ()\n return *({0}),({1})\ndef r2():\n raise (({0}),({1}))\n assert (({0}),({1})),(({1}),)\n del (x,y),[z]\n for (i,j) in (({0}),({1})):pass',
          'try:pass\nexcept* ({0}):pass', 'match ({0}):\n case [1,x,*r] if ({1}):pass\n case {{"k":v,**o}}|C(a,b=2):pass\n case "s"|None|-1|1+2j|a.b:pass\n case _:pass',
          'import a.b as c,d\nfrom . import e\nfrom ..f import g as h,i\nfrom j import *', 'global q\nq=({0})', 'def k():\n x=1\n def l():\n  nonlocal x\n  x=({0})', 'lambda:(yield)', 'print(({0}),sep=({1}))',
          'type T=({0})', 'def m[T:int,*U,**V](a:T)->T:return ({0})', 'class N[T]:pass', 'x=({0});y=({1})', 'if ({0}):\n if ({1}):pass\n else:pass', 'return_=1\nclass O:\n def p(self):return', 'pass',
@@ -426,9 +430,9 @@ def run(pid, tier):
     with common.coq_lock():
         nPr, nP = legs_core(res, r, eff)
         nL = leg_L(res, r, eff)
-        nDa, nDb = leg_D(res, r, eff)
+        nDa, nDb = leg_D(res, common.rng(pid + '/legD'), eff)
         from harness.props import c12 as _c12
-        nQ = _c12.leg_Q(res, r, 'quick')
+        nQ = _c12.leg_Q(res, common.rng(pid + '/legQ'), 'quick')
     nO = oracle(res, r, eff)
     res.samples = ['(-v1**-v2)**v3*(v4+v5)', FORMS[30].format('a', 'b'), STMTS[18]]
     res.coverage.update({'leg_Pr_trees': nPr, 'leg_P_texts': nP, 'leg_L_integers': nL, 'leg_D_ministring_cases': nDa, 'leg_D_literal_texts': nDb, 'leg_Q_fstring_constants': nQ[0], 'oracle_round_trips': nO, 'evaluations': nPr + nP + nL + nDa + nDb + nO, 'distinct_nontrivial': nPr + nO,
